@@ -364,13 +364,18 @@ def tlc(specdir, module, cfg, rundir, workers=None, timeout=600, extra=(), simul
     res = TlcResult()
     t0 = time.time()
     outpath = os.path.join(wd, "tlc.out")
-    try:
-        with open(outpath, "w") as of:
-            r = subprocess.run(cmd, cwd=wd, env=env, stdout=of, stderr=subprocess.STDOUT, timeout=timeout)
-        rc = r.returncode
-    except subprocess.TimeoutExpired as e:
-        subprocess.run(["pkill", "-f", "tlc2.TL[C]"], capture_output=True)
-        raise Undecided("TLC timed out after %ds on %s/%s" % (timeout, module, cfg))
+    import signal as _signal
+    with open(outpath, "w") as of:
+        proc = subprocess.Popen(cmd, cwd=wd, env=env, stdout=of, stderr=subprocess.STDOUT, start_new_session=True)
+        try:
+            rc = proc.wait(timeout=timeout)
+        except subprocess.TimeoutExpired:
+            try:
+                os.killpg(proc.pid, _signal.SIGKILL)     # only this TLC (its own process group), never others'
+            except OSError:
+                pass
+            proc.wait()
+            raise Undecided("TLC timed out after %ds on %s/%s" % (timeout, module, cfg))
     res.wall = time.time() - t0
     res.wd = wd
     res.outpath = outpath
